@@ -133,7 +133,8 @@ def check_tables(desc, props):
     mine = all_tuples[desc['part']::desc['parts']]
     data = pd.DataFrame({'ceilo': pd.array(['a'] * max(n, 1), dtype=pd.StringDtype()),
                          'dt': -np.arange(max(n, 1), dtype=float), 'height': hs if n else [np.nan],
-                         'type': [1] * n if n else [0], 'layer_id': list(range(n)) if n else [-1]})
+                         'type': [1] * n if n else [0], 'layer_id': list(range(n)) if n else [-1],
+                         'slice_id': list(range(n)) if n else [-1], 'group_id': list(range(n)) if n else [-1]})
     chunk._data = data
     for okt in mine:
         sig = icao.significant_cloud(list(okt))
@@ -144,17 +145,21 @@ def check_tables(desc, props):
         tab['significant'] = np.array(sig, dtype=bool)
         tab['cluster_id'] = np.arange(n, dtype=int)
         chunk._layers = tab
+        levels = ('layers', 'slices', 'groups') if n <= 3 else ('layers',)
+        for lv in levels[1:]:
+            setattr(chunk, '_' + lv, tab)
         for m in msa_positions(n):
             msa = _msa_value(m, hs, None)
             chunk._prms['MSA'] = msa
             for flag in (False, True):
                 chunk._clouds_above_msa_buffer = flag
-                msg = chunk.metar_msg('layers')
-                evals += 1
-                nv = len(viol)
-                oracles.check_message(msg, tab, msa, flag, viol, tags, which='layers', props=props)
-                for v in viol[nv:]:
-                    v.update(table_oktas=list(okt), bases=hs, msa=msa, flag=flag)
+                for lv in levels:
+                    msg = chunk.metar_msg(lv)
+                    evals += 1
+                    nv = len(viol)
+                    oracles.check_message(msg, tab, msa, flag, viol, tags, which=lv, props=props)
+                    for v in viol[nv:]:
+                        v.update(table_oktas=list(okt), bases=hs, msa=msa, flag=flag)
                 if first is None and n:
                     first = {'workload': 'table-driven', 'oktas': list(okt), 'bases': hs, 'msa': msa,
                              'flag': flag, 'msg': msg}
